@@ -531,7 +531,7 @@ func c15Replay(pl json.RawMessage) (string, []core.Violation) {
 func init() {
 	core.Register(&core.PropSpec{
 		ID: "C15", Level: "exploration",
-		Rule:     "skeleton programs (statement families; nesting chains of depth <= 2, 3 thorough, over blocks / if-else-loop blocks / function declarations / function expressions in every expression position) laid out one statement per line; at EVERY statement boundary (before each statement of a list, before each closing brace of a list, before the end of input) every decoration of the alphabet (own-line or trailing comment with each of 8 texts incl. code-like text, quotes, backtick, //, trailing spaces; blank-line runs 1 and 3; 13 mixed sequences of comments and blank lines), singly at every boundary and pairwise at every two boundaries for small skeletons. Oracle (independent tokenizer R-tok on source and output): the comment list of each pretty output (3 option sets) has the same texts (modulo trailing white space) in the same order, each in front of the same significant token (';' ignored); a blank line separates two sibling statements in the output iff it does in the source; compact output is byte-identical to the compact output of the comment-free program and contains no comment; replacing every comment text by a neutral one changes the pretty output only inside the comments. non-trivial = decorated programs containing at least one comment",
+		Rule:     "skeleton programs (statement families; nesting chains of depth <= 2, 3 thorough, over blocks / if-else-loop blocks / function declarations / function expressions in every expression position) laid out one statement per line; at EVERY statement boundary (before each statement of a list, before each closing brace of a list, before the end of input) every decoration of the alphabet (own-line or trailing comment with each of 8 texts incl. code-like text, quotes, backtick, //, trailing spaces; blank-line runs 1 and 3; 13 mixed sequences of comments and blank lines), singly at every boundary and pairwise at every two boundaries for small skeletons. Oracle (independent tokenizer R-tok on source and output): the comment list of each pretty output (3 option sets) has the same texts (modulo trailing white space) in the same order, each in front of the same significant token (';' ignored); a blank line separates two sibling statements in the output iff it does in the source; compact output is byte-identical to the compact output of the comment-free program and contains no comment; replacing every comment text by a neutral one changes the pretty output only inside the comments. non-trivial = decorated programs containing at least one comment Added: comment texts with every code point of U+2000..U+203F except U+2028/U+2029 and one code point per UTF-8 length, own-line and trailing, at every boundary of a small skeleton; empty and blank-only comment texts.",
 		Assume:   []string{"comments are compared modulo trailing white space", "blank-line preservation is required between sibling statements only (not after an opening or before a closing brace)", "multi-line literals are exercised by C06/C07, not here"},
 		QuickSec: 240, ThorSec: 1800, Run: c15Run, Replay: c15Replay,
 		Evals: "decorated_programs", Nontriv: "programs_with_comments",
